@@ -13,6 +13,7 @@ import random
 import re
 
 from harness import layouts
+from harness.c17_quant import time_limit
 
 FORMS_LAY = (1, 2, 3, 4, 5, 8)  # layout variants of harness/layouts.py used as re-layouts (8 = several combined); never 6/7 (renaming)
 
@@ -498,10 +499,15 @@ class Program:
         return self.ids[fst_path(f)]
 
 
+def _exc_s(ex):
+    return ascii(f'{type(ex).__name__}: {ex}')[1:-1][:160].replace('\\', '/').replace('"', "'")
+
+
 def run_match(prog, pat, form, path, use_fst_method, ctx=False):
     """one Match event's observation"""
     tgt = prog.target(form, path)
     try:
+      with time_limit(30):
         if form != 'ast' and (use_fst_method or not hasattr(pat, 'match') or isinstance(pat, (type, re.Pattern))):
             m = tgt.match(pat, ctx=ctx) if ctx else tgt.match(pat)
         elif hasattr(pat, 'match') and not isinstance(pat, (type, re.Pattern)):
@@ -509,18 +515,19 @@ def run_match(prog, pat, form, path, use_fst_method, ctx=False):
         else:
             import fst.match as fm
             m = fm.M(pat).match(tgt)  # non-M patterns on a pure AST go through the anonymous M() wrapper
-        acc, tags = prog.canon[form].answer(m)
-        return acc, tags, ''
+      acc, tags = prog.canon[form].answer(m)
+      return acc, tags, ''
     except Exception as ex:  # noqa: BLE001
-        return False, '', f'{type(ex).__name__}: {ex}'[:160]
+        return False, '', _exc_s(ex)
 
 
 def run_search(prog, pat, form, path, nested, on, back, self_, recurse, scope):
     root = prog.target(form, path)
     canon = prog.canon[form]
     kw = dict(on=on, self_=self_, recurse=recurse, scope=scope, back=back)
-    ev = {'walk': [], 'lv': [], 'acc': [], 'wtags': [], 'found': [], 'flv': [], 'ftags': [], 'exc': ''}
+    ev = {'walk': [], 'lv': [], 'ci': [], 'acc': [], 'wtags': [], 'found': [], 'flv': [], 'ftags': [], 'exc': ''}
     try:
+      with time_limit(60):
         for y in root.search(pat, nested, **kw):
             m, lv = y if on == 'both' else (y, False)
             ev['found'].append(prog.tid(m.matched))
@@ -530,11 +537,13 @@ def run_search(prog, pat, form, path, nested, on, back, self_, recurse, scope):
             f, lv = y if on == 'both' else (y, False)
             ev['walk'].append(prog.tid(f))
             ev['lv'].append(bool(lv))
+            fp = fst_path(f)  # oracle fact from the child path: inside the first iterator of a comprehension
+            ev['ci'].append(any(fp[i] == ('generators', 0) and fp[i + 1] == ('iter', None) for i in range(len(fp) - 1)))
             acc, tags = canon.answer(f.match(pat))
             ev['acc'].append(acc)
             ev['wtags'].append(tags)
     except Exception as ex:  # noqa: BLE001
-        ev['exc'] = f'{type(ex).__name__}: {ex}'[:160]
+        ev['exc'] = _exc_s(ex)
     return ev
 
 
@@ -647,7 +656,7 @@ def record_program(pi, src, seed, n_targets, n_search, quick=True):
             k, path, form, nested, on, back, self_, recurse, scope = x
             p, src_flag, cls = pats[k - 1]
             ev = run_search(prog, p, form, path, nested, on, back, self_, recurse, scope)
-            ev.update({'k': 'search', 'p': k, 't': prog.ids[path], 'form': form, 'nested': nested, 'on': on, 'cls': cls,
+            ev.update({'k': 'search', 'p': k, 't': prog.ids[path], 'form': form, 'nested': nested, 'on': on, 'scope': bool(scope), 'cls': cls,
                        'params': [back, self_, recurse, scope]})
             steps.append(ev)
     stats['patterns'] = len(pats)
